@@ -20,7 +20,7 @@ from vf import refmodel, sweep, enumerate as en, families, env, build as vbuild,
 
 LEVEL = 'model_checking'
 RULE = ('case = (driver spec, encoder, first operation): all operation sequences of length <= depth starting with that operation '
-        '(quick: decode operations restricted to 4+2 spread vectors, thorough: every vector); '
+        '(quick: decode operations restricted to 5+2 vectors (first, its last-variable neighbour, two spread, last), thorough: every vector); '
         'states = sequences executed, transitions = operations replayed; non-trivial = sequence containing a state-changing '
         'operation (fix/free/mutate/pickle) or a corrected decode; plus one case per (driver spec) for the hash-seed x id-assignment axis')
 ASSUMPTIONS = ['stateless enumeration (no state merging, so nothing is merged wrongly): quick all sequences <= 3 over the reduced decode alphabet; thorough <= 3 over the full alphabet and <= 4 over the reduced one',
@@ -120,10 +120,11 @@ def alphabet_for(spec, enc, reduced=False):
     dvs = s.all_vars()
     space = list(itertools.product(*[sweep.dv_values(dv) for dv in dvs]))
     # decodes are generated against the FULL (unfixed) variable list; fixed variables are dropped at apply time
-    if (_TIER[0] == 'quick' or reduced) and len(space) > 4:
+    if (_TIER[0] == 'quick' or reduced) and len(space) > 5:
         # quick: first, last and two spread vectors as history operations (the observation still decodes ALL vectors)
         k = len(space)
-        space_ops = [space[0], space[k//3], space[(2*k)//3], space[-1]]
+        # space[0]/space[1] differ in the last variable only (caches keyed by a prefix of the vector)
+        space_ops = [space[0], space[1], space[k//3], space[(2*k)//3], space[-1]]
     else:
         space_ops = space
     for x in space_ops:
